@@ -67,6 +67,12 @@ func init() {
 				bs = append(bs, core.Batch{Name: fmt.Sprintf("startup-fault-w%d", w), TimeoutS: 300,
 					Params: core.Params(c03Params{Kind: "startup-fault", Workers: w, Cycles: tierPick(tier, 8, 30)})})
 			}
+			for rep := 0; rep < tierPick(tier, 1, 4); rep++ {
+				bs = append(bs, core.Batch{Name: fmt.Sprintf("oversubscribed-%d", rep), TimeoutS: 300,
+					Params: core.Params(c03Params{Kind: "oversub", Workers: 4, Cycles: tierPick(tier, 250, 1500)})})
+			}
+			bs = append(bs, core.Batch{Name: "first-start-race", TimeoutS: 600, Race: true,
+				Params: core.Params(c03Params{Kind: "first-start", Workers: 2, Cycles: tierPick(tier, 60, 400)})})
 			bs = append(bs, core.Batch{Name: "listen-and-serve", TimeoutS: 300,
 				Params: core.Params(c03Params{Kind: "listen", Workers: 4, Cycles: tierPick(tier, 12, 60)})})
 			for _, g := range []string{"G1", "G2", "G3-token", "G3-reset", "G3-event", "G3-reply", "G4", "G5", "G6", "control"} {
@@ -86,6 +92,26 @@ func c03Run(c *core.Ctx, b core.Batch) {
 	var p c03Params
 	json.Unmarshal(b.Params, &p)
 	rigInstall()
+	if p.Kind == "oversub" {
+		c03Oversubscribed(c, p)
+		return
+	}
+	if p.Kind == "first-start" {
+		for cy := 0; cy < p.Cycles; cy++ {
+			s := newC03Svc(c, p.Workers)
+			c.Eval(1)
+			if err := s.startWithRacingCalls(s.rig.start); err != nil {
+				c.Inconclusive("start: " + err.Error())
+				return
+			}
+			c.Obs("first_starts_with_racing_api_calls", 1)
+			c.Distinct(fmt.Sprintf("first-start/%d/%d", p.Workers, cy))
+			if !s.shutdownAndCheck(map[string]interface{}{"scenario": "first start of a Service racing with API calls", "cycle": cy}, p.Workers, nil) {
+				return
+			}
+		}
+		return
+	}
 	if p.Kind == "startup-fault" {
 		c03StartupFault(c, p)
 		return
@@ -409,10 +435,64 @@ func kindOfID(id string) string {
 // exactly-once workload.
 func (s *c03Svc) restartCheck(what interface{}) bool {
 	c := s.c
-	if err := s.rig.restart(); err != nil {
+	err := s.startWithRacingCalls(s.rig.restart)
+	c.Obs("restarts_with_racing_api_calls", 1)
+	if err != nil {
 		c.Violation("C03/restart-failed", "a stopped service could not be served again: "+err.Error(), what)
 		return false
 	}
+	return s.restartWorkload(what)
+}
+
+// startWithRacingCalls runs start (rig.start or rig.restart) while three other
+// goroutines call the API: each call is refused as not started or takes effect, and the
+// race batches watch the start-up phase.
+func (s *c03Svc) startWithRacingCalls(start func() error) error {
+	stopEarly := make(chan struct{})
+	var early sync.WaitGroup
+	for g := 0; g < 3; g++ {
+		early.Add(1)
+		go func(g int) {
+			defer early.Done()
+			sv := s.rig.S
+			for n := 0; ; n++ {
+				select {
+				case <-stopEarly:
+					return
+				default:
+				}
+				name := []string{"ResetAll", "Reset", "TokenEvent", "With", "Conn", "TokenReset"}[(n+g)%6]
+				s.apiCall(name+":during-start", func() {
+					switch name {
+					case "ResetAll":
+						sv.ResetAll()
+					case "Reset":
+						sv.Reset([]string{"svc.m.>"}, nil)
+					case "TokenEvent":
+						sv.TokenEvent("cid1", nil)
+					case "With":
+						sv.With("svc.m.9", func(rs res.Resource) {})
+					case "Conn":
+						_ = sv.Conn()
+					case "TokenReset":
+						sv.TokenReset("auth.svc.m.1.relogin", "tid")
+					}
+				})
+				if n%8 == 7 {
+					runtime.Gosched()
+				}
+			}
+		}(g)
+	}
+	err := start()
+	close(stopEarly)
+	early.Wait()
+	return err
+}
+
+// restartWorkload: after a restart an exactly-once workload must run.
+func (s *c03Svc) restartWorkload(what interface{}) bool {
+	c := s.c
 	s.rig.C.NoGoID = true
 	before := atomic.LoadInt64(&s.n)
 	const k = 30
@@ -538,6 +618,82 @@ func c03MultiShutdown(c *core.Ctx, p c03Params) {
 	c.Sample(map[string]interface{}{"scenario": "concurrent Shutdown calls", "workers": p.Workers, "cycles": p.Cycles})
 }
 
+// c03Oversubscribed: far more caller goroutines than processors (GOMAXPROCS raised
+// to 4 x NumCPU, 128 callers) keep calling the publishing API while the service goes
+// through start/stop cycles and stays stopped for a moment in each: callers are
+// preempted in the middle of a call often enough that a complete Shutdown fits
+// between two of their steps. Every call is refused or takes effect, none panics.
+func c03Oversubscribed(c *core.Ctx, p c03Params) {
+	old := runtime.GOMAXPROCS(4 * runtime.NumCPU())
+	defer runtime.GOMAXPROCS(old)
+	s := newC03Svc(c, p.Workers)
+	if err := s.rig.start(); err != nil {
+		c.Inconclusive("start: " + err.Error())
+		return
+	}
+	stop := make(chan struct{})
+	var wg sync.WaitGroup
+	var calls int64
+	for g := 0; g < 128; g++ {
+		wg.Add(1)
+		go func(g int) {
+			defer wg.Done()
+			for n := 0; ; n++ {
+				select {
+				case <-stop:
+					return
+				default:
+				}
+				name := []string{"TokenEvent", "Reset", "ResetAll", "TokenEventWithID", "TokenReset", "foreign-change"}[(n+g)%6]
+				sv := s.rig.S
+				s.apiCall(name, func() {
+					switch name {
+					case "TokenEvent":
+						sv.TokenEvent("cid1", nil)
+					case "Reset":
+						sv.Reset([]string{"svc.m.>"}, nil)
+					case "ResetAll":
+						sv.ResetAll()
+					case "TokenEventWithID":
+						sv.TokenEventWithID("cid1", "tid", nil)
+					case "TokenReset":
+						sv.TokenReset("auth.svc.m.1.relogin", "tid")
+					case "foreign-change":
+						if rs, err := sv.Resource("svc.m.1"); err == nil {
+							rs.ChangeEvent(map[string]interface{}{"a": n})
+						}
+					}
+				})
+				atomic.AddInt64(&calls, 1)
+			}
+		}(g)
+	}
+	ok := true
+	for cy := 0; cy < p.Cycles && ok && c.Violations() == 0; cy++ {
+		time.Sleep(time.Duration(200+cy%7*150) * time.Microsecond)
+		what := map[string]interface{}{"scenario": "128 callers on an oversubscribed scheduler", "cycle": cy}
+		if err := s.rig.stop(); err != nil {
+			c.Violation("C03/shutdown-error", "Shutdown of a started service returned: "+err.Error(), what)
+			ok = false
+			break
+		}
+		c.Eval(1)
+		time.Sleep(time.Duration(1+cy%3) * time.Millisecond) // stays stopped for a moment
+		if err := s.rig.restart(); err != nil {
+			c.Violation("C03/restart-failed", "a stopped service could not be served again: "+err.Error(), what)
+			ok = false
+			break
+		}
+		s.rig.C.NoGoID = true
+		c.Distinct(fmt.Sprintf("%s/%d", c.Batch.Name, cy))
+	}
+	close(stop)
+	wg.Wait()
+	c.Obs("oversubscribed_api_calls", atomic.LoadInt64(&calls))
+	s.rig.stop()
+	c.Sample(map[string]interface{}{"scenario": "128 callers, GOMAXPROCS = 4 x NumCPU, start/stop cycles", "cycles": p.Cycles, "api_calls": atomic.LoadInt64(&calls)})
+}
+
 // c03StartupFault: the n-th subscription fails while the service starts. The blocked
 // Serve call must return in bounded time, no worker may survive, the connection is
 // closed once, and the same Service can then be served on a healthy connection.
@@ -546,20 +702,83 @@ func c03StartupFault(c *core.Ctx, p c03Params) {
 		s := newC03Svc(c, p.Workers)
 		failNth := 1 + cy%6
 		var nsub int32
+		// odd cycles: instead of failing, the n-th subscription is held until a Shutdown
+		// called from another goroutine has completed (Shutdown during the start-up phase)
+		shutdownDuring := cy%2 == 1
+		arrived, shutdownDone := make(chan struct{}), make(chan struct{})
 		s.rig.C.FailSubscribe = func(subject string, nth int) error {
 			if int(atomic.AddInt32(&nsub, 1)) == failNth {
+				if shutdownDuring {
+					close(arrived)
+					waitCh(shutdownDone, 20*time.Second)
+					return nil
+				}
 				return fmt.Errorf("injected subscribe failure")
 			}
 			return nil
 		}
-		what := map[string]interface{}{"scenario": "subscription failure during start", "failing_subscription": failNth, "workers": p.Workers, "cycle": cy}
+		scen := "subscription failure during start"
+		if shutdownDuring {
+			scen = "Shutdown completing while Serve is still subscribing"
+		}
+		what := map[string]interface{}{"scenario": scen, "subscription": failNth, "workers": p.Workers, "cycle": cy}
 		conn := s.rig.C
 		ret := make(chan error, 1)
-		go func() { ret <- s.rig.S.Serve(conn) }()
+		go func() {
+			var err error
+			if pn, stack := tryStack(func() { err = s.rig.S.Serve(conn) }); pn != nil {
+				c.Violation("C03/panic:Serve:"+short(fmt.Sprint(pn), 60), fmt.Sprintf("Serve panicked (%s): %v", scen, pn), map[string]interface{}{"scenario": what, "stack": short(stack, 2500)})
+			}
+			ret <- err
+		}()
+		var gateMu sync.Mutex
+		var lateGate *sched.Gate
+		releaseLate := func() {
+			gateMu.Lock()
+			if lateGate != nil {
+				lateGate.Release()
+				lateGate = nil
+			}
+			gateMu.Unlock()
+		}
+		if shutdownDuring {
+			go func() {
+				if !waitCh(arrived, 10*time.Second) {
+					close(shutdownDone)
+					return
+				}
+				s.apiCall("Shutdown", func() { s.rig.S.Shutdown() })
+				// whatever Shutdown call the library itself makes from now on is held at its entry
+				gateMu.Lock()
+				lateGate = sched.Arm("shutdown.enter", nil)
+				gateMu.Unlock()
+				close(shutdownDone)
+			}()
+		}
 		c.Eval(1)
-		select {
-		case <-ret:
-		case <-time.After(10 * time.Second):
+		// a Shutdown call made by Serve itself (synchronously) is parked at the same point:
+		// if Serve has not returned shortly after a call arrived there, it is Serve's own
+		serveRet := false
+		for waited := 0; waited < 500 && !serveRet; waited++ {
+			select {
+			case <-ret:
+				serveRet = true
+			case <-time.After(20 * time.Millisecond):
+				gateMu.Lock()
+				lg := lateGate
+				gateMu.Unlock()
+				if lg != nil && lg.WaitArrived(0) {
+					select {
+					case <-ret:
+						serveRet = true
+					case <-time.After(40 * time.Millisecond):
+						releaseLate()
+					}
+				}
+			}
+		}
+		if !serveRet {
+			releaseLate()
 			if int(atomic.LoadInt32(&nsub)) < failNth {
 				c.Inconclusive("startup-fault: the service made fewer subscriptions than the one to fail")
 				s.rig.S.Shutdown()
@@ -571,6 +790,19 @@ func c03StartupFault(c *core.Ctx, p c03Params) {
 			return
 		}
 		c.Obs("startup_fault_cycles", 1)
+		// A Shutdown call that the failed start left behind on a goroutine of its own may
+		// still be on its way (it is parked at its entry now): it belongs to the run that
+		// is over and must not stop the next run.
+		gateMu.Lock()
+		lg := lateGate
+		gateMu.Unlock()
+		stray := false
+		if lg != nil {
+			stray = lg.WaitArrived(30 * time.Millisecond)
+		}
+		if !stray {
+			releaseLate()
+		}
 		stopped := false
 		for i := 0; i < 400; i++ {
 			if st, _, _, _ := s.rig.S.VerifState(); st == 0 && mon.CountGoroutines("go-res.(*Service).startWorker") == 0 {
@@ -585,11 +817,25 @@ func c03StartupFault(c *core.Ctx, p c03Params) {
 			return
 		}
 		if n := conn.Closes(); n != 1 {
-			c.Violation("C03/close-count", fmt.Sprintf("connection Close was called %d times after a failed start", n), what)
+			c.Violation("C03/close-count", fmt.Sprintf("connection Close was called %d times (%s)", n, scen), what)
 		}
 		// the same Service on a healthy connection
 		if !s.restartCheck(what) {
+			releaseLate()
 			return
+		}
+		if stray {
+			c.Obs("stray_shutdown_calls_held", 1)
+			releaseLate() // the left-over Shutdown call of the previous run proceeds now
+			time.Sleep(5 * time.Millisecond)
+			w2 := map[string]interface{}{"scenario": scen + "; the Shutdown call that the failed start issued on a goroutine of its own arrives after the service has been served again", "workers": p.Workers, "cycle": cy}
+			if st, _, _, _ := s.rig.S.VerifState(); st != 2 {
+				c.Violation("C03/stray-shutdown-stops-next-run", fmt.Sprintf("the service was served again, then a Shutdown call left over from the previous (failed) start stopped the new run (state=%d)", st), w2)
+				return
+			}
+			if !s.restartWorkload(w2) {
+				return
+			}
 		}
 		if !s.shutdownAndCheck(what, p.Workers, nil) {
 			return
